@@ -2,6 +2,7 @@ import Bec2Verif.Lemmas.EcMulAdd
 import Bec2Verif.Lemmas.EcAffine
 import Bec2Verif.Lemmas.EcTotal
 import Bec2Verif.Lemmas.P256Laws
+import Bec2Verif.Lemmas.CertConsequences
 /-!
 # C17 — the arithmetic of python-ecdsa's points is the group law of the curve
 
@@ -139,6 +140,29 @@ theorem p256_generator_mul (k : ℤ) :
       (PJ.pt { X := P256C.gX, Y := P256C.gY, Z := 1, order := (P256C.N : ℤ), gen := true }) := P256C.g_trep
   obtain ⟨R, hR, hrep⟩ := mul_total P256C.cOK P256.curve P256C.curve_p P256C.curve_a _ hG (fun _ => P256C.g_nz) k
   exact ⟨R, hR, hrep ⟨fun _ => P256C.g_order, fun _ => by decide +kernel⟩⟩
+
+/-! ### the named curves: certificates instead of hypotheses
+
+For 14 of the 17 short-Weierstrass curves of the library the hypotheses of this file are theorems about the constants
+found in the current source (`Lemmas/CurveCerts.lean`, generated): the field modulus is prime (recursive Lucas
+certificates), the curve has no point with `y = 0` (certificate in `F_p[x]/(x³+ax+b)`), the generator is a point of the
+group with reduced coordinates and `n·G = 0` (kernel evaluation of the model through `mul_correct`), `n` is odd.
+Not certified: SECP112r2 (cofactor 4: it *has* a point of order 2) and brainpoolP384r1 / P512r1 (`p − 1` was not
+factored by the tools at hand). -/
+
+theorem certified_names : Cert.groupCertified.map (·.name) =
+    ["NIST192p", "NIST224p", "NIST256p", "NIST384p", "NIST521p", "SECP256k1", "BRAINPOOLP160r1", "BRAINPOOLP192r1",
+     "BRAINPOOLP224r1", "BRAINPOOLP256r1", "BRAINPOOLP320r1", "SECP112r1", "SECP128r1", "SECP160r1"] := by decide
+
+/-- every listed curve carries its certificate -/
+theorem certified_curves : ∀ r ∈ Cert.groupCertified, Cert.GroupCert r := Cert.groupCertified_ok
+
+/-- **Diffie-Hellman on the certified curves, nothing assumed**: two parties whose public points were computed by the
+library (`generator * secret`, affine) obtain the same result - the same integer, or both the same error -/
+theorem ecdh_on_certified_curves (r : Gen.CurveRec) (hr : r ∈ Cert.groupCertified) (da db : ℤ) (A B : ℤ × ℤ)
+    (hA : Cert.pubAffine r da = some A) (hB : Cert.pubAffine r db = some B) :
+    sharedSecret (Cert.domOf r) da B.1 B.2 = sharedSecret (Cert.domOf r) db A.1 A.2 :=
+  Cert.ecdh_certified r (Cert.groupCertified_ok r hr) da db A B hA hB
 
 /-- odd characteristic for every prime other than 2 -/
 theorem two_ne_zero_of_odd (hp2 : p ≠ 2) : (2 : ZMod p) ≠ 0 := by
